@@ -113,6 +113,11 @@ class QueueWorld:
         if self.idle() and self.join_task is not None and self.Z and not self.join_task.done():
             self.v("join() still waiting at idle although every item put had been taken and its block had exited",
                    self.puts, self.taken, self.exits)
+        if self.idle() and self.puts > self.taken:
+            waiting = sorted(c for c, t in self.tasks.items() if not t.done() and c not in self.in_block)
+            if waiting:
+                self.v("an item that was put is never handed to a consumer that waits for one (item lost)",
+                       self.puts, self.taken, waiting)
         acts = []
         if self.loop._ready:
             acts.append(("step",))
